@@ -35,7 +35,7 @@ package shellfuncsfile
 // fromSingleFile: converted content, or the content unchanged when no filter matches.
 //@ func Converter.fromSingleFile(c, name) (res, err)
 //@   locals c name b err filters res
-//@   props C17
+//@   props C17 C20
 //@   ghost data []byte = nil
 //@   ghost rdErr bool = false
 //@   ghost nRead int = 0
@@ -54,7 +54,7 @@ package shellfuncsfile
 // non-empty output ends in a newline (appended if missing, nothing else changed).
 //@ func Converter.fromReader(c, r, fn, filters) (b, err)
 //@   locals c r fn filters patterns f matchedPattern pattern ok err b err
-//@   props C17
+//@   props C17 C20
 //@   nilable filters
 //@   ghost nSort int = 0
 //@   ghost mi int = 0 - 1
@@ -88,7 +88,7 @@ package shellfuncsfile
 // the concatenation of exactly those conversions.
 //@ func Converter.fromDirectory(c, source) (res, err)
 //@   locals c source sfs err filters fileNames patterns pattern ms err buf fileName fn fi err err f err b
-//@   props C17
+//@   props C17 C20
 //@   ghost nSortP int = 0
 //@   ghost nSortN int = 0
 //@   ghost nCompact int = 0
@@ -103,24 +103,26 @@ package shellfuncsfile
 //@   on call maps.Clone(m) (cl): assert(m == c.filters && nClone == 0 && held("Converter.filtersL"), "the_filter_table_is_copied_under_its_lock"); nClone++
 //@   on call maps.Keys(m) (ks): assert(m == filters && nClone == 1 && nKeys == 0, "patterns_are_those_of_this_converters_own_table"); nKeys++
 //@   on enter fs.Glob(f, p): assert(nSortP == 1 && nSortN == 0 && f == sfs && p == pattern, "candidates_are_the_directory_entries_matching_a_filter_pattern")
-//@   on enter fs.Stat(f, n): assert(nSortN == 1 && nCompact == 1 && f == sfs && n == fileName && !strings.HasPrefix(n, "."), "dot_files_are_never_touched"); statted = true; regular = false
-//@   on call fs.FileMode.IsRegular(m) (b): regular = b
+//@   on enter fs.Stat(f, n): assert(nSortN == 1 && nCompact == 1 && f == sfs && n == fileName && !strings.HasPrefix(n, "."), "dot_files_are_never_touched"); assert(!owed, "every_regular_eligible_file_is_converted_whatever_its_size"); statted = true; regular = false
+//@   ghost owed bool = false
+//@   on call fs.FileMode.IsRegular(m) (b): regular = b; owed = b
 //@   on enter fs.FS.Open(f, n): assert(f == sfs && n == fileName && statted && regular && !strings.HasPrefix(n, "."), "only_regular_non_dot_files_are_opened")
 //@   on enter Converter.fromReader(cc, r, n, fl): assert(cc == c && n == fileName && statted && regular && !strings.HasPrefix(n, ".") && fl == filters, "only_regular_non_dot_files_are_converted_with_the_filter_table")
-//@   on call Converter.fromReader(cc, r, n, fl) (b, e): lastConv = b; lastConvOK = e == nil
+//@   on call Converter.fromReader(cc, r, n, fl) (b, e): lastConv = b; lastConvOK = e == nil; owed = false
 //@   on enter bytes.Buffer.Write(bb, p): assert(bb == &buf && p == lastConv && lastConvOK, "payload_is_the_concatenation_of_the_conversions"); lastConvOK = false
 //@   loop 1
 //@     invariant globbing: nSortP == 1 && nSortN == 0 && nCompact == 0
 //@   loop 2
-//@     invariant converting: nSortP == 1 && nSortN == 1 && nCompact == 1 && !lastConvOK
+//@     invariant converting: nSortP == 1 && nSortN == 1 && nCompact == 1 && !lastConvOK && !owed
 //@   ensures sorted_and_deduplicated: imp(err == nil, nSortP == 1 && nSortN == 1 && nCompact == 1)
+//@   ensures the_last_regular_eligible_file_is_converted_too: imp(err == nil, !owed)
 
 // from: one source; a directory goes through fromDirectory, a regular file
 // through fromSingleFile, anything else is refused; the converted bytes are
 // returned as they are.
 //@ func Converter.from(c, source) (res, err)
 //@   locals c source fi b err
-//@   props C17
+//@   props C17 C20
 //@   ghost nStat int = 0
 //@   ghost info fs.FileInfo = nil
 //@   ghost isDir bool = false
@@ -142,7 +144,7 @@ package shellfuncsfile
 // generated from everything before it.
 //@ func Converter.From(c, sources) (res, err)
 //@   locals c sources buf source b err lf err
-//@   props C17 C18
+//@   props C17 C18 C20
 //@   ghost last []byte = nil
 //@   ghost lastOK bool = false
 //@   ghost nFrom int = 0
